@@ -180,6 +180,7 @@ func runC34(c *Ctx) []Obligation {
 	// the DB handle is itself concurrency-safe and the one-off codec conversion
 	// runs single-threaded, so the rule over-approximated — see DESIGN.md)
 	_ = c.lockDiscipline
+	out = append(out, proofIsRecorded(c, P)...)
 	return out
 }
 
